@@ -173,6 +173,39 @@ theorem C14_iteration_generic (pt : Parts P W F O D) (Good : F → Prop) (Kfit :
   exact List.mem_map.2 ⟨x, hx, rfl⟩
 
 
+/-- **particle by particle** (seeded change C14f): if the clusterer labels every point by itself — `predict` is a map over the rows
+    of its argument, H_pointwise, checked on the real `HierarchicalGaussianMixture.predict` by suite `predict-batch-independence`
+    every run — then an active particle that is also the `j`-th training particle carries, as raw label, the very label the
+    Trainer gave it; that label has a mode, is kept, and the particle itself is one of the particles its mode was built from. -/
+theorem C14_particlewise_coherent (pt : Parts P W F O D) (Good : F → Prop) (Kfit : F → Nat)
+    (prev : Option F) (mustFit : Bool) (hist : List P) (w : List W) (idx : List Nat) (out : Out P W F O)
+    (hTrim : ∀ u wt, pt.trim hist w = some (u, wt) → u ≠ [])
+    (hFit : ∀ u wt f, pt.cfit u wt = some f → Good f) (hPrev : ∀ f, prev = some f → Good f)
+    (hPred : ∀ f X l, Good f → pt.cpredict f X = some l → l.length = X.length ∧ ∀ x ∈ l, x < Kfit f)
+    (hPoint : ∀ f, ∃ lab : P → Nat, ∀ X l, pt.cpredict f X = some l → l = X.map lab)
+    (hBuild : ∀ u wt labels o, pt.build u wt labels = some o →
+      pt.stored o = labelsOf labels ∧ ∀ p, (pt.dist o p).length = (pt.stored o).length)
+    (h : annealIter pt prev mustFit hist w idx = some out) :
+    ∀ x ∈ out.active, ∀ j, out.trainU[j]? = some x.u →
+      out.trainLabels[j]? = some x.raw ∧ x.label = x.raw ∧ j ∈ indicesOf out.trainLabels x.label ∧
+      modeOfRaw (fromParticles out.trainLabels) x.index = some (indicesOf out.trainLabels x.label) := by
+  obtain ⟨_, _, _, _, h5, h6, _, _, hact⟩ :=
+    C14_iteration_generic pt Good Kfit prev mustFit hist w idx out hTrim hFit hPrev hPred hBuild h
+  obtain ⟨lab, hlab⟩ := hPoint out.clf
+  have e1 := hlab _ _ h5
+  have e2 := hlab _ _ h6
+  intro x hx j hj
+  have hraw : x.raw = lab x.u := by
+    obtain ⟨k, hk, rfl⟩ := List.mem_iff_getElem.1 hx
+    have := congrArg (fun l => l[k]?) e2
+    simp only [List.getElem?_map, List.map_map] at this
+    simpa [List.getElem?_eq_getElem hk] using this
+  have htl : out.trainLabels[j]? = some x.raw := by
+    rw [e1, List.getElem?_map, hj, hraw]; rfl
+  obtain ⟨_, _, _, _, hmode, _, hkeep⟩ := hact x hx
+  have hkept : x.label = x.raw := hkeep (List.mem_of_getElem? htl)
+  exact ⟨htl, hkept, by rw [hkept]; exact (mem_indicesOf _ _ _).2 htl, hmode⟩
+
 /-! ### every iteration of a run (the flag and the clusterer carried along) -/
 
 /-- the conclusion of `C14_iteration_generic` for one completed iteration -/
@@ -566,6 +599,11 @@ example : (runAnneal exParts 3 ⟨false, none⟩
       [⟨4, [0, 1, 2, 3, 4, 5], [1, 1, 1, 1, 1, 1], [4, 5]⟩, ⟨5, [0, 1, 2, 3, 4, 5, 6, 7], [1, 1, 1, 1, 1, 1, 1, 1], [7]⟩]).map
       (fun io => (io.2.didFit, io.2.trainLabels, io.2.active.map fun x => (x.raw, x.index, x.label)))
     = [(true, [0, 2, 2, 0], [(1, 0, 0), (2, 1, 2)]), (false, [0, 2, 2, 0], [(1, 0, 0)])] := by decide +kernel
+
+
+/-- the tagging clusterer labels every point by itself (H_pointwise of `C14_particlewise_coherent` is satisfiable) -/
+example : ∀ f : ℕ, ∃ lab : ℕ → ℕ, ∀ X l, exParts.cpredict f X = some l → l = X.map lab :=
+  fun _ => ⟨fun p => if p < 4 ∧ p % 3 = 1 then 2 else p % 3, fun X l h => by simpa [exParts] using h.symm⟩
 
 
 end Props.C14
